@@ -36,6 +36,23 @@ def U(node: ast.AST | None) -> str:
         return ast.dump(node)
 
 
+def normalise_syntax(tree: ast.AST) -> ast.AST:
+    """`try: ... except* T:` is modelled as `try: ... except T:` (the handler also sees the ExceptionGroup that carries T; the unmatched rest of
+    a group is re-raised, which the typed exceptional edges of the enclosing construct already allow for every type the body may raise)."""
+    star = getattr(ast, 'TryStar', None)
+    if star is None:
+        return tree
+
+    class T(ast.NodeTransformer):
+        def visit_TryStar(self, node):  # noqa: N802
+            self.generic_visit(node)
+            new = ast.Try(body=node.body, handlers=node.handlers, orelse=node.orelse, finalbody=node.finalbody)
+            new.is_star = True  # type: ignore[attr-defined]
+            return ast.copy_location(new, node)
+
+    return T().visit(tree)
+
+
 def set_parents(tree: ast.AST) -> None:
     for parent in ast.walk(tree):
         for child in ast.iter_child_nodes(parent):
@@ -218,6 +235,7 @@ class Program:
                 tree = ast.parse(src, filename=p)
             except SyntaxError as e:
                 raise AnchorError(f'{rel} does not parse: {e}')
+            tree = normalise_syntax(tree)
             self.fold_log.extend(fold_new_helpers(tree, rel, self._known))
             set_parents(tree)
             mi = ModuleInfo(rel, src, tree)
@@ -230,7 +248,7 @@ class Program:
             if fn.endswith('.py') and rel not in self.modules:
                 src = open(os.path.join(pkg, fn), encoding='utf-8').read()
                 h.update(rel.encode() + b'\0' + src.encode())
-                tree = ast.parse(src)
+                tree = normalise_syntax(ast.parse(src))
                 set_parents(tree)
                 mi = ModuleInfo(rel, src, tree)
                 self.modules[rel] = mi
